@@ -25,6 +25,9 @@ type Op struct {
 	Orig  int
 	Share int // index into the share pool, -1 if none
 	Sig   int // 0: the group signature, 1: another valid-looking signature, 2: garbage (VerifyThresholdSignature)
+	// Reuse: the caller passes the share in the SAME buffer it used for its previous call (a
+	// receive buffer; legal after a call that did not retain the share). Ignored by the model.
+	Reuse bool
 }
 
 func (o Op) String() string {
